@@ -32,14 +32,17 @@ ASSUMPTIONS = ["main() is driven in-process with patched sys.argv / stdin / stdo
 SIDE_CONDITIONS = ["attrsDefined Generated.cliAttrReads Generated.cliSubcommands Generated.cliGlobalDests", "errorsCaught Generated.exceptionClasses Generated.cliHandlers",
                    "handlersInstalled Generated.cliHandlers Generated.cliSubcommands"]
 
-DOC = {"a": [1, 2, {"b": "é"}], "k": "x\\u00e9", "s%20t": 1, "n": None}
+DOC = {"a": [1, 2, {"b": "é"}], "k": "x\\u00e9", "s%20t": 1, "n": None, "é": "decoded", "\\u00e9": "literal", "s t": "space"}
 PATH_INPUTS = [("", "ok"), ("$.a[*]", "ok"), ("$..b", "ok"), ("$[?length(@) > 1]", "ok"), ("$[?length(@.*)]", "type"), ("$[", "syntax"), ("$[?nosuch(@)]", "name"),
                ("$[9007199254740992]", "index"), ("$[?@.k == 'x\\u00e9']", "ok"), ("$.a[*] | $.k", "ok"), ("$[?@ == 1e400]", "syntax"),
                ("$.a\n  [*]\n", "ok"), ("$[\n  ?length(@) > 1\n  && @[0] == 1\n]", "ok"), ("$.a\n[", "syntax"), ("\n$.k", "ok")]
-PTR_INPUTS = [("/a/0", "ok"), ("/a/2/b", "ok"), ("", "ok"), ("/nope", "resolution"), ("/a/9", "resolution"), ("a", "pointer"), ("/s%20t", "ok"), ("/k", "ok"), ("/a\\", "pointer")]
+PTR_INPUTS = [("/a/0", "ok"), ("/a/2/b", "ok"), ("", "ok"), ("/nope", "resolution"), ("/a/9", "resolution"), ("a", "pointer"), ("/s%20t", "ok"), ("/k", "ok"), ("/a\\", "pointer"),
+              ("/\\u00e9", "ok"), ("/s t", "ok")]          # these two resolve to different members depending on --no-unicode-escape / -u
 PATCH_INPUTS = [([{"op": "add", "path": "/z", "value": 1}], "ok"), ([{"op": "remove", "path": "/a/0"}, {"op": "copy", "from": "/a", "path": "/c"}], "ok"), ([], "ok"),
                 ([{"op": "remove", "path": "/nope"}], "patch"), ([{"op": "test", "path": "/a", "value": 1}], "patch"), ([{"op": "nosuch"}], "patch"), ({"op": "add"}, "notlist"),
-                ([{"op": "add", "path": "x", "value": 1}], "patch")]
+                ([{"op": "add", "path": "x", "value": 1}], "patch"),
+                ([{"op": "replace", "path": "/\\u00e9", "value": "changed"}], "ok"), ([{"op": "replace", "path": "/s%20t", "value": "changed"}], "ok"),
+                ([{"op": "test", "path": "/\\u00e9", "value": "literal"}], "ok")]     # flag-sensitive: --no-unicode-escape / -u decide which member is meant
 DOC_KINDS = ["valid", "malformed", "undecodable"]
 
 
@@ -51,7 +54,7 @@ def gen(ctx):
             for src in ("inline", "file"):
                 for sink in ("stdout", "file"):
                     for stdin in (False, True):
-                        if kind != "valid" and (sink == "file" or stdin):
+                        if kind != "valid" and sink == "file":
                             continue
                         for q, qk in PATH_INPUTS:
                             for notc in (False, True):
@@ -70,7 +73,7 @@ def gen(ctx):
                             pass
             for sink in ("stdout", "file"):
                 for stdin in (False, True):
-                    if kind != "valid" and (sink == "file" or stdin):
+                    if kind != "valid" and sink == "file":
                         continue
                     for ops, pk in PATCH_INPUTS:
                         for uri in (False, True):
@@ -134,32 +137,44 @@ def evaluate(ctx, cases):
             argv.append(c["cmd"])
             outfile = os.path.join(tmp, f"out{n}.json")
             if c["cmd"] in ("path", "pointer"):
+                lng = (n % 2 == 1)        # alternate the short and the long spelling of every option
                 if c["src"] == "inline":
-                    argv += ["-q" if c["cmd"] == "path" else "-p", c["expr"]]
+                    argv += [("--query" if lng else "-q") if c["cmd"] == "path" else ("--pointer" if lng else "-p"), c["expr"]]
                 else:
                     ef = os.path.join(tmp, f"expr{n}.txt")
                     with open(ef, "w") as f:
                         f.write(c["expr"] + "\n")
-                    argv += ["-r", ef]
+                    argv += [(("--path-file" if c["cmd"] == "path" else "--pointer-file") if lng else "-r"), ef]
                 if c["cmd"] == "path" and c["notc"]:
                     argv.append("--no-type-checks")
                 if c["cmd"] == "pointer" and c["uri"]:
-                    argv.append("-u")
+                    argv.append("--uri-decode" if lng else "-u")
             else:
                 pf = os.path.join(tmp, f"patch{n}.json")
                 with open(pf, "wb") as f:
                     f.write(c["expr"] if isinstance(c["expr"], bytes) else (c["expr"].encode() if isinstance(c["expr"], str) else json.dumps(c["expr"]).encode()))
+                lng = (n % 2 == 1)
                 argv.append(pf)
                 if c["uri"]:
-                    argv.append("-u")
+                    argv.append("--uri-decode" if lng else "-u")
             stdin_data = None
             if c["stdin"]:
-                stdin_data = docs[c["doc"]].decode()
+                stdin_data = docs[c["doc"]]          # bytes: malformed and undecodable documents arrive on stdin too
             else:
-                argv += ["-f", os.path.join(tmp, c["doc"] + ".json")]
+                argv += ["--file" if lng else "-f", os.path.join(tmp, c["doc"] + ".json")]
             if c["sink"] == "file":
-                argv += ["-o", outfile]
+                argv += ["--output" if lng else "-o", outfile]
             status, out, err, exc = run_cli(argv, stdin_data)
+            if n % 293 == 7 and c["sink"] == "stdout":
+                # the same command line through `python -m jsonpath` (the __main__ module) in a fresh process
+                import subprocess
+                ctx.count("python -m jsonpath")
+                pr = subprocess.run([sys.executable, "-m", "jsonpath"] + argv, input=stdin_data if stdin_data is not None else None, capture_output=True, timeout=60,
+                                    env={**os.environ, "PYTHONPATH": "/repo"})
+                sub = (pr.returncode, pr.stdout.decode("utf-8", "replace"), len(pr.stderr.decode("utf-8", "replace").splitlines()))
+                here = (status, out, len(err.splitlines()))
+                if exc is None and sub != here:
+                    ctx.violation("`python -m jsonpath` must behave as jsonpath.cli.main() with the same arguments", {"argv": argv}, list(sub), list(here))
             if c["sink"] == "file" and os.path.exists(outfile):
                 with open(outfile) as f:
                     out_text = f.read()
